@@ -6,7 +6,7 @@ import consumer_common as cc
 META = dict(
     level="model_checking",
     engine="Producer+Consumer",
-    technique="Close/AsyncClose enabled in every state of the implementation-shaped TLA+ models (spec/Producer.tla QuiescentDone, "
+    technique="Close/AsyncClose enabled in every state of the implementation-shaped TLA+ models (spec/Producer.tla QuiescentDone + liveness Drains under weak fairness, "
               "spec/Consumer.tla NoPanic + ClosedWhenStuck) model-checked by TLC; crash-point enumeration on the real code: every scenario "
               "of the producer/consumer fault corpora re-run with Close called after its k-th step; traces validated by the observer specs "
               "(close_returns, channels_closed, no_panic, deliver_after_close)",
@@ -32,7 +32,8 @@ def run(ctx):
     if quick:
         base = base[:260]
     cps = pc.close_points(base, 4 if quick else 1, rnd) + pc.family_create_unreachable()
-    pst, ptr, pdet = pc.model_check(ctx, ["MCProducer.small.cfg", "MCProducer.idem.cfg"] if quick else ["MCProducer.quick.cfg", "MCProducer.idem.cfg"])
+    pst, ptr, pdet = pc.model_check(ctx, ["MCProducer.small.cfg", "MCProducer.idem.cfg", "MCProducer.live.cfg", "MCProducer.liveidem.cfg"] if quick
+                                   else ["MCProducer.quick.cfg", "MCProducer.idem.cfg", "MCProducer.live.cfg", "MCProducer.liveidem.cfg"])
     pviols, pstats, ptrace, pcases = pc.run_scenarios(ctx, cps, name="c12prod")
     # ---- consumer crash points
     plain, r1 = cc.gen_logs(ctx, "ConsumerLog.plain.cfg")
